@@ -180,7 +180,7 @@ def do_check(pid, mod, args, seed, scratch):
             results.append(r)
             print(
                 f"  shard {r['name']}: {r.get('verdict')} paths={r.get('paths', 0)} conf={r.get('paths_confirmed', 0)} unk={r.get('paths_unknown', 0)} "
-                f"div={r.get('divergences', 0)} z3={r.get('z3_checks', 0)}/{r.get('z3_time', 0):.1f}s wall={r.get('wall', 0):.1f}s {r.get('stop_reason', '')}",
+                f"div={r.get('divergences', 0)} rlz={r.get('realizations', 0)} z3={r.get('z3_checks', 0)}/{r.get('z3_time', 0):.1f}s wall={r.get('wall', 0):.1f}s {r.get('stop_reason', '')}",
                 flush=True,
             )
     results.sort(key=lambda r: r["name"])
@@ -257,6 +257,7 @@ def do_check(pid, mod, args, seed, scratch):
             "solver_queries": sum(r.get("z3_checks", 0) for r in results),
             "solver_time_s": round(sum(r.get("z3_time", 0.0) for r in results), 2),
             "solver_unknown": sum(r.get("z3_unknown", 0) for r in results),
+            "value_realizations": sum(r.get("realizations", 0) for r in results),
             "cpu_s": round(sum(r.get("cpu", 0.0) for r in results), 1),
             "tags": _merge_tags(results),
             "functions_encoded": functions,
@@ -277,6 +278,7 @@ def do_check(pid, mod, args, seed, scratch):
                     "wall_s": round(r.get("wall", 0.0), 1),
                     "stop": r.get("stop_reason", ""),
                     "unknown_reasons": r.get("unknown_reasons", {}),
+                    "value_realizations": r.get("realizations", 0),
                 }
                 for r in results
             ],
